@@ -3,6 +3,7 @@ package main
 import (
 	"fmt"
 	"reflect"
+	"time"
 
 	am "github.com/hashicorp/go-argmapper"
 )
@@ -25,6 +26,12 @@ type I1 interface {
 // E0 is a concrete type implementing error; model ids: E0 = 6, error = 12.
 // They are only used for Convert to the interface type error.
 type E0 int
+
+// Duration (id 16) has the same bare name as time.Duration (id 17): two distinct defined types
+type Duration int64
+
+// IDList is a NAMED slice type (id 15): []int values are assignable to it, but it is another type
+type IDList []int
 
 func (e E0) Error() string { return fmt.Sprintf("E0(%d)", int(e)) }
 
@@ -55,9 +62,9 @@ var concreteTys = []int{0, 1, 2, 3, 4, 5}
 
 // unnamed (composite) types: []int = 7, map[string]int = 8, chan int = 9,
 // <-chan int = 13 (assignable from chan int but a different type), *T0 = 14
-// (implements I0; its zero value is a nil pointer)
-var extraTys = []int{7, 8, 9, 13, 14}
-var allTys = []int{0, 1, 2, 3, 4, 5, 7, 8, 9, 13, 14, 10, 11}
+// (implements I0; its zero value is a nil pointer), IDList = 15 (named, underlying []int)
+var extraTys = []int{7, 8, 9, 13, 14, 15, 16, 17}
+var allTys = []int{0, 1, 2, 3, 4, 5, 7, 8, 9, 13, 14, 15, 16, 17, 10, 11}
 var ifaceTys = []int{10, 11}
 
 // implementer used to carry a serial inside an interface-typed result
@@ -76,6 +83,9 @@ func init() {
 	tyOf[9] = reflect.TypeOf((chan int)(nil))
 	tyOf[13] = reflect.TypeOf((<-chan int)(nil))
 	tyOf[14] = reflect.TypeOf((*T0)(nil))
+	tyOf[15] = reflect.TypeOf(IDList(nil))
+	tyOf[16] = reflect.TypeOf(Duration(0))
+	tyOf[17] = reflect.TypeOf(time.Duration(0))
 	for _, id := range extraTys {
 		tidOfString[tyOf[id].String()] = id
 		tidOfType[tyOf[id]] = id
